@@ -18,13 +18,18 @@ from .runner import run_property, write_evidence, write_replay
 
 
 def check_one(prop: str, tier: str, seed: int, repo: Repo | None = None, quiet=False) -> int:
+    import time
+
+    t0 = time.time()
     repo = repo or Repo()
     res = run_property(repo, prop, tier)
+    res.wall_s = time.time() - t0
     extra = None
     if tier == "thorough":
         from .selftest import run_selftest
 
         extra = {"selftest": run_selftest(prop, seed)}
+        res.wall_s = time.time() - t0
     path = write_evidence(repo, res, seed, extra)
     if not quiet:
         n_ok = sum(1 for o in res.obs if o.ok)
